@@ -204,7 +204,7 @@ def c08(rep, tier, seed):
     rep.assumptions += VEC_ASSUME + ["a wider value into a bool column: promotion or SerifTypeError-with-nothing-changed are both accepted"]
     suite_vec.mc_assign(rep)
     suite_vec.gen(rep, tier, ["assign", "atype"], C08_CL)
-    suite_table.gen(rep, tier, ["tassign"], C08_CL + ("table_atomic", "table_assign_cells"))
+    suite_table.gen(rep, tier, ["tassign", "rename"], C08_CL + ("table_atomic", "table_assign_cells", "rename", "rename_reject", "rename_atomic"))
     suite_vec.trace(rep, tier, seed, C08_CL, ops=("assign",))
     suite_heap.gen(rep, tier, "tables", ("contents@target", "write_error", "setattr_error"))
 
@@ -383,7 +383,7 @@ def replay(prop, path, rep):
         elif suite.startswith("vec."):
             spec = ("drv_vec.py", lambda c, o, s=suite[4:]: ["replay", s, c, o])
             inner = case.get("case", case)
-        elif suite.startswith("table.") and suite[6:] in ("select", "arith", "tassign"):
+        elif suite.startswith("table.") and suite[6:] in ("select", "arith", "tassign", "rename"):
             spec = ("drv_table.py", lambda c, o, s=suite[6:]: ["replay", s, c, o])
             inner = case.get("case", case)
         elif suite.startswith("names.") and suite != "names.trace":
